@@ -230,7 +230,9 @@ DecFields(fs, i, B, p, names, ks, vs) ==
 
 Dec(t0, B, p, names) ==
   LET t == Deref(t0, names)
-      lg(r) == IF r.st = "ok" THEN DOk(Unprep(t, r.v), r.p) ELSE r
+      \* logical conversion of the stored value; stored values outside the logical type's domain have no defined reading
+      lg(r) == IF r.st # "ok" THEN r
+               ELSE LET u == Unprep(t, r.v) IN IF u.p = "unrepresentable" THEN DErr("unspec") ELSE DOk(u, r.p)
   IN
   CASE t.k = "null" -> DOk(VNone, p)
     [] t.k = "boolean" -> IF p > Len(B) THEN DErr("eof")
